@@ -100,7 +100,7 @@ func C03() int {
 	c03FailingRuns(s, c, items)
 	reportBatchAnomalies(c)
 	c.Set("flag_sets", flagNames(fsets))
-	c.Set("race_reports", s.RaceReports())
+	raceVerdict(s, c)
 	if c.Counter("trees_aligned") < 10000 {
 		c.Inconclusive(fmt.Sprintf("only %d trees aligned", c.Counter("trees_aligned")))
 	}
